@@ -288,6 +288,29 @@ fn c13_case(c: &EnumCase, u: &U, st: &mut Stats, thorough: bool, only: &Option<S
         st.bump("new-variant-rejected-by-old-definition");
         st.nontrivial += 1;
     }
+    // an index the definition does not know, followed by what would be a complete valid value of
+    // another case (its index and record): the constructor is chosen by the index alone, so Err
+    for v in values(&c.base, &p) {
+        let Val::Enum(decl, _) = &v else { unreachable!() };
+        if eb.variants[*decl].transient {
+            continue;
+        }
+        let Out::Ok(b) = enc(&c.base, nb, &v) else { continue };
+        for idx in [eb.variants.len() as u32, 127, u32::MAX] {
+            st.states += 1;
+            let mut t = vec![0u8];
+            t.extend(varu(idx));
+            t.extend_from_slice(&b[1..]);
+            let got = dec(&c.base, nb, &t);
+            st.transitions += 1;
+            st.validated += 1;
+            if !matches!(got, Out::Err(_)) {
+                bad(st, "unknown-index-followed-by-valid-case-accepted", got.class(), json!({"bytes": hex(&t), "index": idx, "got": format!("{got:?}").chars().take(300).collect::<String>()}));
+                return;
+            }
+            st.bump("bad-index-then-valid-case:Err");
+        }
+    }
     // every constructor index the definition does not know, and every transient one
     for (def, name, ed) in [(&c.base, nb, eb), (&c.ext, ne, ee)] {
         let mut idxs = out_of_range_indices(ed.variants.len());
